@@ -206,35 +206,59 @@ def lit_list(n):
 
 
 WORKLOADS = [
-    # name, setup(n) -> [stmts], work(n, k) -> one statement performing k mutations, aliased setup extra
-    ("index-assign", lambda n: [f"x := {lit_list(n)}"], lambda n, k: f"for (i <- 0 til {k}) (x[i % {n}] = i)"),
-    ("append=", lambda n: [f"x := {lit_list(n)}"], lambda n, k: f"for (i <- 0 til {k}) (x append= i)"),
-    ("++=", lambda n: [f"x := {lit_list(n)}"], lambda n, k: f"for (i <- 0 til {k}) (x ++= [i])"),
-    ("index +=", lambda n: [f"x := {lit_list(n)}"], lambda n, k: f"for (i <- 0 til {k}) (x[i % {n}] += 1)"),
-    ("pop", lambda n: [f"x := {lit_list(n)}"], lambda n, k: f"for (i <- 0 til {k}) (x append= i; pop x)"),
-    ("remove-at-end", lambda n: [f"x := {lit_list(n)}"], lambda n, k: f"for (i <- 0 til {k}) (x append= i; remove x[-1])"),
-    ("dict |.=", lambda n: [f"x := {{}}", f"for (i <- 0 til {n}) (x |.= i)"], lambda n, k: f"for (i <- 0 til {k}) (x |.= ({n} + i))"),
-    ("dict index-assign", lambda n: [f"x := {{}}", f"for (i <- 0 til {n}) (x[i] = i)"], lambda n, k: f"for (i <- 0 til {k}) (x[i % {n}] = i)"),
-    ("dict |..=", lambda n: [f"x := {{}}", f"for (i <- 0 til {n}) (x[i] = i)"], lambda n, k: f"for (i <- 0 til {k}) (x |..= [i % {n}, i])"),
-    ("dict index +=", lambda n: [f"x := {{:0}}", f"for (i <- 0 til {n}) (x[i] = i)"], lambda n, k: f"for (i <- 0 til {k}) (x[i % {n}] += 1)"),
-    ("nested row", lambda n: [f"x := [{lit_list(n)}, {lit_list(n)} ++ []]"], lambda n, k: f"for (i <- 0 til {k}) (x[i % 2][i % {n}] = i)"),
-    ("nested row append=", lambda n: [f"x := [{lit_list(n)}, {lit_list(n)} ++ []]"], lambda n, k: f"for (i <- 0 til {k}) (x[i % 2] append= i)"),
-    ("struct field", lambda n: ["struct P (pa, pb)", f"x := P({lit_list(n)}, 0)"], lambda n, k: f"for (i <- 0 til {k}) (x[pa][i % {n}] = i; x[pb] += 1)"),
-    ("vector index-assign", lambda n: [f"x := vector({lit_list(n)})"], lambda n, k: f"for (i <- 0 til {k}) (x[i % {n}] = i)"),
-    ("bytes index-assign", lambda n: [f"x := bytes({lit_list(n)})"], lambda n, k: f"for (i <- 0 til {k}) (x[i % {n}] = i % 200)"),
-    ("string index-assign", lambda n: [f"x := \"a\" $* {n}"], lambda n, k: f"for (i <- 0 til {k}) (x[i % {n}] = \"b\")"),
+    # name, declared type of x, setup(n) -> [stmts] (the first one declares x), work(n, k) -> one statement performing k mutations
+    ("index-assign", "list", lambda n: [f"x := {lit_list(n)}"], lambda n, k: f"for (i <- 0 til {k}) (x[i % {n}] = i)"),
+    ("append=", "list", lambda n: [f"x := {lit_list(n)}"], lambda n, k: f"for (i <- 0 til {k}) (x append= i)"),
+    ("++=", "list", lambda n: [f"x := {lit_list(n)}"], lambda n, k: f"for (i <- 0 til {k}) (x ++= [i])"),
+    ("index +=", "list", lambda n: [f"x := {lit_list(n)}"], lambda n, k: f"for (i <- 0 til {k}) (x[i % {n}] += 1)"),
+    ("pop", "list", lambda n: [f"x := {lit_list(n)}"], lambda n, k: f"for (i <- 0 til {k}) (x append= i; pop x)"),
+    ("remove-at-end", "list", lambda n: [f"x := {lit_list(n)}"], lambda n, k: f"for (i <- 0 til {k}) (x append= i; remove x[-1])"),
+    ("dict |.=", "dict", lambda n: [f"x := {{}}", f"for (i <- 0 til {n}) (x |.= i)"], lambda n, k: f"for (i <- 0 til {k}) (x |.= ({n} + i))"),
+    ("dict index-assign", "dict", lambda n: [f"x := {{}}", f"for (i <- 0 til {n}) (x[i] = i)"], lambda n, k: f"for (i <- 0 til {k}) (x[i % {n}] = i)"),
+    ("dict |..=", "dict", lambda n: [f"x := {{}}", f"for (i <- 0 til {n}) (x[i] = i)"], lambda n, k: f"for (i <- 0 til {k}) (x |..= [i % {n}, i])"),
+    ("dict index +=", "dict", lambda n: [f"x := {{:0}}", f"for (i <- 0 til {n}) (x[i] = i)"], lambda n, k: f"for (i <- 0 til {k}) (x[i % {n}] += 1)"),
+    ("nested row", "list", lambda n: [f"x := [{lit_list(n)}, {lit_list(n)} ++ []]"], lambda n, k: f"for (i <- 0 til {k}) (x[i % 2][i % {n}] = i)"),
+    ("nested row append=", "list", lambda n: [f"x := [{lit_list(n)}, {lit_list(n)} ++ []]"], lambda n, k: f"for (i <- 0 til {k}) (x[i % 2] append= i)"),
+    ("nested row ++=", "list", lambda n: [f"x := [{lit_list(n)}, {lit_list(n)} ++ []]"], lambda n, k: f"for (i <- 0 til {k}) (x[i % 2] ++= [i])"),
+    ("dict bucket append=", "dict", lambda n: [f"x := {{0: {lit_list(n)}, 1: {lit_list(n)} ++ []}}"], lambda n, k: f"for (i <- 0 til {k}) (x[i % 2] append= i)"),
+    ("dict bucket ++=", "dict", lambda n: [f"x := {{0: {lit_list(n)}, 1: {lit_list(n)} ++ []}}"], lambda n, k: f"for (i <- 0 til {k}) (x[i % 2] ++= [i])"),
+    ("dict bucket |.=", "dict", lambda n: [f"x := {{0: {{}}}}", f"for (i <- 0 til {n}) (x[0] |.= i)"], lambda n, k: f"for (i <- 0 til {k}) (x[0] |.= ({n} + i))"),
+    ("dict bucket index-assign", "dict", lambda n: [f"x := {{0: {lit_list(n)}}}"], lambda n, k: f"for (i <- 0 til {k}) (x[0][i % {n}] = i)"),
+    ("dict bucket vector +=", "dict", lambda n: [f"x := {{0: vector({lit_list(n)})}}"], lambda n, k: f"for (i <- 0 til {k}) (x[0][i % {n}] += 1)"),
+    ("struct field", "P", lambda n: ["struct P (pa, pb)", f"x := P({lit_list(n)}, 0)"], lambda n, k: f"for (i <- 0 til {k}) (x[pa][i % {n}] = i; x[pb] += 1)"),
+    ("struct field append=", "P", lambda n: ["struct P (pa, pb)", f"x := P({lit_list(n)}, 0)"], lambda n, k: f"for (i <- 0 til {k}) (x[pa] append= i)"),
+    ("vector index-assign", "vector", lambda n: [f"x := vector({lit_list(n)})"], lambda n, k: f"for (i <- 0 til {k}) (x[i % {n}] = i)"),
+    ("vector index +=", "vector", lambda n: [f"x := vector({lit_list(n)})"], lambda n, k: f"for (i <- 0 til {k}) (x[i % {n}] += 1)"),
+    ("bytes index-assign", "bytes", lambda n: [f"x := bytes({lit_list(n)})"], lambda n, k: f"for (i <- 0 til {k}) (x[i % {n}] = i % 200)"),
+    ("string index-assign", "str", lambda n: [f"x := \"a\" $* {n}"], lambda n, k: f"for (i <- 0 til {k}) (x[i % {n}] = \"b\")"),
 ]
+
+
+def declare(stmts, ty, typed):
+    """`x := e`  ->  `x: T = e` for the type-annotated variant (assign_respecting_type then checks the type after every
+    indexed write; that must not keep a second holder of the collection alive)"""
+    if not typed:
+        return list(stmts)
+    out, done = [], False
+    for s in stmts:
+        if not done and s.startswith("x := "):
+            out.append(f"x: {ty} = " + s[len("x := "):])
+            done = True
+        else:
+            out.append(s)
+    return out
 
 
 def alloc_cases(n0, k0):
     cases, meta = [], []
-    for name, setup, work in WORKLOADS:
+    for name, ty, setup, work in WORKLOADS:
         for (fn, fk) in GRID:
             n, k = n0 * fn, k0 * fk
             for aliased in (False, True):
-                st = list(setup(n)) + (["y := x"] if aliased else [])
-                cases.append({"id": len(cases), "mode": "alloc", "setup": st, "work": [work(n, k)]})
-                meta.append((name, n, k, aliased))
+                for typed in (False, True):
+                    st = declare(setup(n), ty, typed) + (["y := x"] if aliased else [])
+                    cases.append({"id": len(cases), "mode": "alloc", "setup": st, "work": [work(n, k)]})
+                    meta.append((name, n, k, aliased, typed))
     return cases, meta
 
 
@@ -251,22 +275,23 @@ def alloc_check(ctx, n0, k0):
     table = {m: r for m, r in zip(meta, res)}
     progs = {m: c["setup"] + c["work"] for m, c in zip(meta, cases)}
     rows = []
-    for name, _, _ in WORKLOADS:
+    for name, _, _, _ in WORKLOADS:
+      for typed in (False, True):
         b = {}
         bad = False
         for aliased in (False, True):
             for (fn, fk) in GRID:
-                r = table[(name, n0 * fn, k0 * fk, aliased)]
+                r = table[(name, n0 * fn, k0 * fk, aliased, typed)]
                 if r.get("status") != "ok" or r.get("setup_status") != "ok" or r.get("work_status") != "ok":
                     ctx.violation("alloc-workload-failed", {"what": "an allocation workload did not run", "workload": name, "aliased": aliased,
-                                                            "program": progs[(name, n0 * fn, k0 * fk, aliased)], "result": r},
+                                                            "typed": typed, "program": progs[(name, n0 * fn, k0 * fk, aliased, typed)], "result": r},
                                   found=r.get("work_status") == "panic")
                     bad = True
                 else:
                     b[(aliased, fn, fk)] = r["bytes"]
         if bad:
             continue
-        row = {"workload": name, "n0": n0, "k0": k0,
+        row = {"workload": name, "typed_declaration": typed, "n0": n0, "k0": k0,
                "bytes_unaliased": {f"{fn}n,{fk}k": b[(False, fn, fk)] for fn, fk in GRID},
                "bytes_once_aliased": {f"{fn}n,{fk}k": b[(True, fn, fk)] for fn, fk in GRID}}
         problems = []
@@ -296,8 +321,8 @@ def alloc_check(ctx, n0, k0):
         for who, what, (fn, fk) in problems[:1]:
             al = who == "once-aliased"
             ctx.violation("property", {
-                "what": f"{name} ({who}): {what}",
-                "workload": name, "aliased": al, "program": progs[(name, n0 * fn, k0 * fk, al)],
+                "what": f"{name} ({who}{', type-annotated variable' if typed else ''}): {what}",
+                "workload": name, "aliased": al, "typed": typed, "program": progs[(name, n0 * fn, k0 * fk, al, typed)],
                 "bytes": b[(al, fn, fk)], "bytes_table": row,
             }, found=True)
     return rows, len(cases)
@@ -308,7 +333,10 @@ def run(ctx):
     stats = {"histories": 0, "statements": 0, "graphs_compared": 0, "cells_compared": 0, "divergences": 0, "shared_cells_seen": 0,
              "inplace_checks": 0}
     samples = []
-    # ---- (1) graph isomorphism
+    # ---- (1) allocation scaling (first: its violations carry a failing workload)
+    n0, k0 = ctx.n(400, 1500), ctx.n(400, 1500)
+    alloc_rows, ncases = alloc_check(ctx, n0, k0)
+    # ---- (2) graph isomorphism
     ok01, spec_runner = common.build_model("C01")
     if runner and ok01:
         spec = c01.Spec(spec_runner)
@@ -347,9 +375,6 @@ def run(ctx):
             }, found=bool(d2.get("crash")))
         if len(hists) > 3:
             samples.append({"program": render_for_graph(*hists[len(hists) // 2])[0][-8:]})
-    # ---- (2) allocation scaling
-    n0, k0 = ctx.n(400, 1500), ctx.n(400, 1500)
-    alloc_rows, ncases = alloc_check(ctx, n0, k0)
     ctx.coverage.update({
         "evaluations": stats["graphs_compared"] + ncases,
         "distinct_nontrivial": stats["shared_cells_seen"],
